@@ -90,7 +90,8 @@ def generate(rng, tier):
         names = {}
         for which in range(2):
             fa = truth.program_fdes(funcs, 0x400000 + OFF)
-            s.module_dwarf("A%d" % which, baseA[which] + OFF, baseA[which] + OFF + span, baseA[which], 0x400000, pres, fa,
+            # A's mapped range begins exactly at its first function (the root), OFF + 0x1000 above its base address
+            s.module_dwarf("A%d" % which, baseA[which] + OFF + 0x1000, baseA[which] + OFF + span, baseA[which], 0x400000, pres, fa,
                            Rng(order_rng), shuffle=True, **enc)
             fb = truth.program_fdes(funcs, 0)
             s.module_dwarf("B%d" % which, baseB[which], baseB[which] + span, baseB[which], 0, pres, fb, Rng(order_rng), shuffle=True, **enc)
@@ -98,6 +99,15 @@ def generate(rng, tier):
             s.add("new U%d" % which)
             first, second = ("A", "B") if (pi // 2 + which) % 2 == 0 else ("B", "A")
             s.add("add U%d %s%d" % (which, first, which)); s.add("add U%d %s%d" % (which, second, which))
+        s.mem("Z", [])
+        for which in range(2):
+            # the very first byte of the mapped range belongs to the root function, whose row declares the stack's end
+            a0 = baseA[which] + OFF + funcs[0].start
+            regs = s.regs_x86(a0, 0x7ffe0000, 0x7ffe0100) if arch == "x86" else s.regs_a64((1 << 48) - 1, 0x1234, 0x7ffe0000, 0x7ffe0100)
+            s.add("newcache C")
+            ln = s.add("unwind U%d C ip %s %s Z" % (which, hx(a0), regs), tag="%s:%s:gap:first-byte" % (arch, pres))
+            # (aarch64: a first frame reads 'lr undefined' as same-value - known finding S14 - but still uses that row's CFA)
+            s.meta[ln] = {"abs_none": True} if arch == "x86" else {"abs_sp": 0x7ffe0000 + funcs[0].bounds[0].row["cfa"][2]}
         for k in range(12 if tier == "quick" else 40):
             inA = k % 2 == 0
             loads = [(baseA[w] + OFF) if inA else baseB[w] for w in range(2)]
@@ -158,6 +168,15 @@ def generate(rng, tier):
 def judge(script, impl):
     bad = []
     for ln, m in script.meta.items():
+        if m.get("abs_none"):
+            if impl.get(ln) is not None and vlib.outcome(impl[ln])[:2] != ("ok", "none"):
+                bad.append((ln, "the first byte of the mapped range was not unwound with the row of the function that starts there: " + impl[ln][:300]))
+            continue
+        if "abs_sp" in m:
+            rg = vlib.regs_of(impl.get(ln)) if impl.get(ln) else None
+            if rg is not None and rg[2] != m["abs_sp"]:
+                bad.append((ln, "the first byte of the mapped range was not unwound with the row of the function that starts there (sp %#x expected): %s" % (m["abs_sp"], impl[ln][:300])))
+            continue
         if "twin" not in m:
             continue
         a, b = impl.get(ln), impl.get(m["twin"])
